@@ -8,11 +8,12 @@ import RtenVerif.Model.Normalizer
 
 * `<chain>` ::= `b<l><s>` | `nfc` | `nfd` | `nfkc` | `nfkd`
   | `r(<pattern cps>/<content cps>/<start>-<end>,…)` | `q[<chain>+…]`
+  (`r(<pattern>/<content>/!)`: `find_iter` returned a runtime `Err` on this stage's input)
 * `<text>`: code points joined by `,`
 * `<L>`,`<D>`,`<K>`: `c:a,b,…` entries joined by `_` (non-identity entries of to_lowercase,
   canonical and compatibility decomposition); `<M>`: the nonspacing marks; `<C>`: `a,b:c` entries.
 
-Answer: `ok <normalized cps>;<offsets>` or `panic`.
+Answer: `ok <normalized cps>;<offsets>`, `err:regex` or `panic`.
 
 `I` (coverage): the harness lists every `impl Normalizer for X` of the source; the model answers
 with the types it models.
@@ -43,6 +44,7 @@ partial def parseChain : List Char → Option (Norm × List Char)
     let body := rest.takeWhile (· != ')')
     let rest := (rest.dropWhile (· != ')')).drop 1
     match (String.ofList body).splitOn "/" with
+    | [_pat, _content, "!"] => some (.replaceErr, rest)
     | [_pat, content, ms] => do
       let c ← cps content
       let m ← parseMatches ms
@@ -99,7 +101,7 @@ def handle (line : String) : String :=
       let u := mkUni (← parseTable l) (← parseTable d) (← parseTable k) (← parseNatList "," m) (← parseCompose c)
       pure <| match run u n t with
         | some (norm, offs) => s!"ok {showChars norm};{showNats "," offs}"
-        | none => "panic"
+        | none => if hasRegexErr n then "err:regex" else "panic"
     r.getD "bad-request"
   | _ => "bad-request"
 
